@@ -167,6 +167,36 @@ pub fn apply_raw_state<'f, A: fst::Automaton>(
     sb
 }
 
+pub fn apply_map_state<'f, A: fst::Automaton>(
+    mut sb: fst::map::StreamWithStateBuilder<'f, A>,
+    b: &Bounds,
+) -> fst::map::StreamWithStateBuilder<'f, A> {
+    for (k, key) in b {
+        sb = match k {
+            Kind::Ge => sb.ge(key),
+            Kind::Gt => sb.gt(key),
+            Kind::Le => sb.le(key),
+            Kind::Lt => sb.lt(key),
+        };
+    }
+    sb
+}
+
+pub fn apply_set_state<'f, A: fst::Automaton>(
+    mut sb: fst::set::StreamWithStateBuilder<'f, A>,
+    b: &Bounds,
+) -> fst::set::StreamWithStateBuilder<'f, A> {
+    for (k, key) in b {
+        sb = match k {
+            Kind::Ge => sb.ge(key),
+            Kind::Gt => sb.gt(key),
+            Kind::Le => sb.le(key),
+            Kind::Lt => sb.lt(key),
+        };
+    }
+    sb
+}
+
 /// A bound key described relative to the model, resolved at check time so
 /// that the generated selector shrinks independently of the key set.
 #[derive(Clone, Debug)]
